@@ -43,6 +43,9 @@ type opResult struct {
 type poolOp struct {
 	Name string
 	Run  func(env opEnv) opResult
+	// Long: thousands of scheduling points; kept out of the schedule exploration of C09 (its interleavings would be
+	// capped anyway), present in C08's histories and in C09's race-detector pass.
+	Long bool
 }
 
 // csdRecord: record with compressed_speed_distance (and cycles / accumulated power) on local 1.
@@ -354,6 +357,16 @@ func buildOpPool() []poolOp {
 	pool = append(pool,
 		encodeOp("Encode(strings longer than their profile length, 2 repeats)", longStrings(2), false),
 		encodeOp("Encode(strings longer than their profile length, 5 repeats)", longStrings(5), true),
+	)
+	// a large activity file (more than 1024 records) and one without any record: capacity hints or high-water marks
+	// kept between calls show as nil-versus-empty slices or as differently sized allocations
+	pool = append(pool,
+		func() poolOp {
+			o := decodeOp("Decode(activity with 1100 records)", activityFile(hdr14(), 1100, false, 11), nil, nil)
+			o.Long = true
+			return o
+		}(),
+		decodeOp("Decode(activity without any record)", minimalFile(hdr14(), 4), nil, nil),
 	)
 	// the checksum package on its own (lazily built tables and shared scratch state would live there)
 	pool = append(pool,
